@@ -170,8 +170,8 @@ def _write_evidence(mod, tier, seed, cov, wall, violations):
         "wall_s": round(wall, 2),
         "violations": violations,
     }
-    d = HOME / "evidence"
-    d.mkdir(exist_ok=True)
+    d = Path(os.environ.get("VERIF_EVIDENCE_DIR") or HOME / "evidence")
+    d.mkdir(parents=True, exist_ok=True)
     (d / f"{mod.ID}.json").write_text(json.dumps(ev, indent=1, ensure_ascii=False, default=str) + "\n")
 
 
@@ -202,7 +202,7 @@ def _shrink(mod, failure, budget):
 
 
 def _emit_violation(mod, failure, tier, seed, origin):
-    out = HOME / "out" / mod.ID
+    out = Path(os.environ.get("VERIF_OUT_DIR") or HOME / "out") / mod.ID
     out.mkdir(parents=True, exist_ok=True)
     name = f"{digest(failure['bucket'])[:10]}.json"
     path = out / name
